@@ -56,6 +56,8 @@ pub use fees::*;
 pub mod impl_mockchain;
 pub mod legacy_address;
 pub mod traits;
+#[cfg(csl_verif)]
+pub mod verif_hooks;
 mod protocol_types;
 pub use protocol_types::*;
 pub mod typed_bytes;
